@@ -105,14 +105,10 @@ TrivEnd == TrivOpt \o [i \in 1..Len(LineBodies) |-> C("//") \o LineBodies[i]]
 Pick(menu, P, b) == menu[1 + (P[1 + ((b - 1) % Len(P))] % Len(menu))]
 
 \* quoting forms of a value
-HasCh(v, c) == \E i \in 1..Len(v) : v[i] = c
-HasPair(v, a, b) == \E i \in 1..(Len(v) - 1) : v[i] = a /\ v[i + 1] = b
+\* (HasCh, HasPair, EscDQ: YangString)
 UnqOK(v) == /\ Len(v) > 0 /\ v[1] # PLUS
             /\ \A i \in 1..Len(v) : ~IsSep(v[i]) /\ v[i] \notin {DQ, SQ, SEMI, LBR, RBR}
             /\ ~HasPair(v, SLASH, SLASH) /\ ~HasPair(v, SLASH, STAR) /\ ~HasPair(v, STAR, SLASH)
-RECURSIVE EscDQ(_, _)
-EscDQ(v, i) == IF i > Len(v) THEN << >>
-               ELSE (IF v[i] = DQ THEN <<BSL, DQ>> ELSE IF v[i] = BSL THEN <<BSL, BSL>> ELSE IF v[i] = LF THEN <<BSL, 110>> ELSE <<v[i]>>) \o EscDQ(v, i + 1)
 Dq(v) == [q |-> "d", src |-> EscDQ(v, 1)]
 Sq(v) == IF HasCh(v, SQ) THEN Dq(v) ELSE [q |-> "s", src |-> v]
 Uq(v) == IF UnqOK(v) THEN [q |-> "u", src |-> v] ELSE Dq(v)
